@@ -157,7 +157,8 @@ def random_specs(rng, n):
             explicit = rng.random() < 0.4
             if explicit:
                 for _ in range(20):
-                    c = rng.choice([lo, hi, 0, 1, -1, rng.randint(max(lo, -300), min(hi, 300)), rng.randint(lo, hi)])
+                    c = rng.choice([lo, hi, 0, 1, -1, rng.randint(max(lo, -300), min(hi, 300)), rng.randint(lo, hi),
+                                    (hi >> rng.randint(1, 6)) if lo == 0 else 2 ** rng.randint(1, 6), 2 ** rng.randint(0, 20)])
                     if lo <= c <= hi and c not in used and (c + 1) <= hi + 1:
                         break
                 else:
@@ -165,6 +166,24 @@ def random_specs(rng, n):
             if explicit:
                 cur = c
                 text = str(cur)
+                # sometimes write the same value as an expression whose meaning depends on being typed at the repr type
+                bits = {"u8": 8, "i8": 8, "u16": 16, "i16": 16, "u32": 32, "i32": 32, "u64": 64, "i64": 64, "usize": 64, "isize": 64}[ty]
+                signed = ty.startswith("i")
+                forms = []
+                if not signed and R is not None:
+                    for k in range(1, bits):
+                        if ((2 ** bits - 1) >> k) == cur:
+                            forms.append("!0 >> %d" % k)
+                if cur > 0 and cur & (cur - 1) == 0 and R is not None:
+                    forms.append("1 << %d" % (cur.bit_length() - 1))
+                if cur < 0 and (-cur) & (-cur - 1) == 0 and R is not None:
+                    forms.append("-(1 << %d)" % ((-cur).bit_length() - 1))
+                if 2 <= cur <= hi and cur % 2 == 0:
+                    forms.append("%d * 2" % (cur // 2))
+                if lo + 3 <= cur:
+                    forms.append("%d + 3" % (cur - 3))
+                if forms and rng.random() < 0.6:
+                    text = rng.choice(forms)
             else:
                 cur = 0 if prev is None else prev + 1
                 text = None
@@ -183,7 +202,7 @@ def random_specs(rng, n):
 
 def build(tier, seed):
     rng = mk_rng(seed, "C06")
-    specs = pivot() + random_specs(rng, 3 if tier == "quick" else 24)
+    specs = pivot() + random_specs(rng, 8 if tier == "quick" else 32)
     programs = []
     for i, s in enumerate(specs):
         consts = "pub const BASE_EXPR: u8 = 10;\n" if s.name == "Expr" else ""
